@@ -17,6 +17,8 @@ def run():
                 builds.add((sp["harness"], tuple(sp["src"]), tuple(b.get("defs", [])), b.get("sanitize", "address"), b.get("main_cpp", False)))
         for (name, src, defs, san, main_cpp) in sorted(builds):
             c.build_exe(name, list(src), defs=list(defs), sanitize=san, libs=["-lcrypto"], main_cpp=main_cpp)
+        from . import cli
+        cli.build_tools()
         try:
             from . import selftest
             rc = selftest.run()
